@@ -47,7 +47,14 @@ func (e *Engine) pureReads(fn *ssa.Function) map[string]string {
 					if rootIsPointerValue(x.X) {
 						s := pt.Underlying().(*types.Struct)
 						f := s.Field(x.Field)
-						add(fieldKey(pt, f.Name()), ArraySort("Ref", so.Sort(f.Type())))
+						if _, isS := isStructType(f.Type()); isS {
+							// sub-object: over-approximate by all of its (flattened) fields
+							for k, srt := range flatFieldKeySorts(so, f.Type()) {
+								add(k, srt)
+							}
+						} else {
+							add(fieldKey(pt, f.Name()), ArraySort("Ref", so.Sort(f.Type())))
+						}
 					}
 				case *ssa.IndexAddr:
 					if sl, ok := types.Unalias(x.X.Type()).Underlying().(*types.Slice); ok {
@@ -68,9 +75,9 @@ func (e *Engine) pureReads(fn *ssa.Function) map[string]string {
 							if _, isFA := x.X.(*ssa.FieldAddr); !isFA {
 								if _, isIA := x.X.(*ssa.IndexAddr); !isIA {
 									pt := types.Unalias(x.X.Type()).Underlying().(*types.Pointer).Elem()
-									if s, isS := isStructType(pt); isS {
-										for i := 0; i < s.NumFields(); i++ {
-											add(fieldKey(pt, s.Field(i).Name()), ArraySort("Ref", so.Sort(s.Field(i).Type())))
+									if _, isS := isStructType(pt); isS {
+										for k, srt := range flatFieldKeySorts(so, pt) {
+											add(k, srt)
 										}
 									} else if at, isA := types.Unalias(pt).Underlying().(*types.Array); isA {
 										es := so.Sort(at.Elem())
